@@ -74,6 +74,7 @@ fn shape(c: &Case) -> String {
         Val::TupleType { .. } => "tuple_type".into(),
         Val::Section { .. } => "section".into(),
         Val::Type(_) => "type".into(),
+        Val::Custom { .. } => "custom".into(),
         Val::Tlvs { advance, .. } => if *advance > 0 { "tlvs-advanced".into() } else { "tlvs".into() },
     };
     let size = bld::ref_size(&c.val);
